@@ -415,6 +415,23 @@ def opPca (a : List Int) (o : Option Obs) : String :=
                 v := v.value false s!"decW[{j},{i}]" (V j i) (dec j)
               v := v.spec s!"encb[{i}]" gEb[i]!.get (-(rsum n fun j => V j i * mean bs j)) (rsum n fun j => rabs (mean bs j))
             else
+              -- the model `pcaEncoderWhitened`, evaluated with the square root the C++ took (read off the decoder)
+              let cleared : Bool := ev i ≤ (1 / 1000000000000000) * ev 0
+              if cleared then
+                v := v.tag "whitening-cleared"
+                for j in [0:n] do
+                  v := v.value false s!"cleared encW[{i},{j}]" 0 (enc j)
+                  v := v.value false s!"cleared decW[{j},{i}]" 0 (dec j)
+              else
+                match (List.range n).find? (fun j => V j i ≠ 0 ∧ (dec j).isFin) with
+                | some j0 =>
+                  let r := (dec j0).get / V j0 i
+                  v := v.spec s!"sqrt-spec r*r = ev[{i}]" (r * r) (ev i) (1 + top)
+                  let mdl := pcaEncoderWhitened V (mean bs) ev (fun _ => r) n mEff
+                  for j in [0:n] do
+                    v := v.value true s!"whitened encW[{i},{j}]" (mdl.W i j) (enc j)
+                  v := v.spec s!"whitened encb[{i}]" gEb[i]!.get (mdl.b i) ((rsum n fun j => rabs (mean bs j)) * (1 + rabs (1 / r)))
+                | none => v := v.tag "whitening-zero-direction"
               for j in [0:n] do
                 if ¬ (enc j).isFin ∨ ¬ (dec j).isFin then v := v.fail s!"non-finite whitened encoder/decoder entry ({i},{j})" else
                 if (enc j).get = 0 ∧ (dec j).get = 0 then v := v.tag "whitening-cleared-or-zero" else
